@@ -610,7 +610,42 @@ func c14R1(h H) {
 					}
 					return true
 				})
-				what := "the in-flight counter is decremented by a defer registered right after the increment (so a panic in the forward call cannot leak it)"
+				if !okPair {
+					// the other safe order: the matching defer is registered first and the increment follows it
+					// with nothing in between that could return, panic or call out (so the pair is all-or-nothing)
+					isDec := func(x ssa.Instruction) bool {
+						d, isDefer := x.(*ssa.Defer)
+						if !isDefer {
+							return false
+						}
+						a2, nm, ok := isAtomicCall(d)
+						dl, _ := constInt(d.Call.Args[1])
+						return ok && strings.HasPrefix(nm, "Add") && dl == -1 && sameValue(a2, addr)
+					}
+					if mustPass(fn, in, isDec) {
+						before := true
+						for _, d := range findCalls(fn, isDec) {
+							reach(fn, d, cut{instr: func(x ssa.Instruction) bool { return x == in }}, func(x ssa.Instruction) bool {
+								if x == in {
+									return true
+								}
+								switch x.(type) {
+								case *ssa.Return, *ssa.Panic:
+									before = false
+								case *ssa.Call:
+									if _, _, isAt := isAtomicCall(x); !isAt {
+										before = false
+									}
+								}
+								return before
+							})
+						}
+						if before {
+							okPair, bad = true, nil
+						}
+					}
+				}
+				what := "the in-flight counter is decremented by a defer registered right after (or right before) the increment (so a panic in the forward call cannot leak it)"
 				if bad != nil {
 					what += "; unprotected: " + h.p.Pos(bad.Pos())
 				}
@@ -655,13 +690,9 @@ func c14R1(h H) {
 				})
 				r.Check(okPair, "R1", shortFunc(fn)+"/Fails+1", in.Pos(), "every recorded failure starts exactly one goroutine that sleeps the fail timeout and then takes the failure back")
 				// guard: timeout > 0
-				pos := false
-				for _, g := range guardAtoms(fn, nil, in) {
-					x, kind, c, ok := intCmp(g.Cond)
-					if ok && g.Pos && kind == "gt" && c == 0 && derives(x, func(v ssa.Value) bool { return readsField(v, "FailTimeout") }, flowOpts{}) {
-						pos = true
-					}
-				}
+				pos := guardsImplyAtLeast(guardAtoms(fn, nil, in), func(x ssa.Value) bool {
+					return derives(x, func(v ssa.Value) bool { return readsField(v, "FailTimeout") }, flowOpts{})
+				}, 1)
 				r.Check(pos, "R1", shortFunc(fn)+"/Fails+1-guard", in.Pos(), "failures are counted only when FailTimeout > 0 (otherwise they would never expire)")
 			}
 		})
@@ -748,30 +779,40 @@ func c14R4(h H) {
 			continue
 		}
 		found = true
+		// every way of answering "down" has exactly one positive reason, Unhealthy != 0 or Fails >= MaxFails
+		// (other atoms on it are negations of earlier disjuncts), and both reasons occur
 		unhealthy, fails := false, false
 		extra := []string{}
-		for _, e := range exitsOf(g) {
-			rt, ok := e.(*ssa.Return)
-			if !ok {
-				continue
-			}
-			c, isC := rt.Results[0].(*ssa.Const)
-			if !isC || c.Value.String() != "true" {
-				continue
-			}
-			for _, a := range guardAtoms(g, nil, rt) {
-				x, kind, cst, ok := intCmp(a.Cond)
+		for _, cs := range boolCases(g, true) {
+			reasons := 0
+			for _, a := range cs {
 				b, isBin := a.Cond.(*ssa.BinOp)
+				nz := false
+				if x, lo, hi, hasLo, hasHi, ok := atomIntBounds(a); ok && atomicLoadOf(x, "Unhealthy") {
+					// x != 0 for a value that is only ever 0 or 1
+					nz = (hasLo && lo >= 1) || (hasHi && hi <= -1)
+				}
+				if x, kind, cst, ok := intCmp(a.Cond); ok && cst == 0 && atomicLoadOf(x, "Unhealthy") && ((kind == "ne" && a.Pos) || (kind == "eq" && !a.Pos)) {
+					nz = true
+				}
 				switch {
-				case ok && a.Pos && kind == "ne" && cst == 0 && atomicLoadOf(x, "Unhealthy"):
+				case nz:
 					unhealthy = true
-				case isBin && a.Pos && b.Op == token.GEQ && atomicLoadOf(b.X, "Fails") && readsField(b.Y, "MaxFails"):
+					reasons++
+				case isBin && ((a.Pos && b.Op == token.GEQ) || (!a.Pos && b.Op == token.LSS)) && atomicLoadOf(b.X, "Fails") && readsField(b.Y, "MaxFails"):
 					fails = true
-				case !a.Pos:
+					reasons++
+				case isBin && ((a.Pos && b.Op == token.LEQ) || (!a.Pos && b.Op == token.GTR)) && atomicLoadOf(b.Y, "Fails") && readsField(b.X, "MaxFails"):
+					fails = true
+					reasons++
+				case isNegatedReason(a):
 					// negation of an earlier disjunct on the fall-through path
 				default:
 					extra = append(extra, describe(a.Cond))
 				}
+			}
+			if reasons == 0 {
+				extra = append(extra, "a way to report down without either reason")
 			}
 		}
 		r.Check(unhealthy && fails && len(extra) == 0, "R4", "proxy.(*staticUpstream).NewHost/CheckDown", g.Pos(),
@@ -795,6 +836,19 @@ func c14R4(h H) {
 		})
 		r.Check(u && f, "R4", "proxy.(*UpstreamHost).Down/default", dn.Pos(), "default predicate: Unhealthy != 0 || Fails > 0, both read atomically")
 	}
+}
+
+// isNegatedReason: the atom says one of the two down-reasons does NOT hold (it only appears on fall-through paths).
+func isNegatedReason(a guardInfo) bool {
+	if x, kind, cst, ok := intCmp(a.Cond); ok && cst == 0 && atomicLoadOf(x, "Unhealthy") {
+		return (kind == "ne" && !a.Pos) || (kind == "eq" && a.Pos)
+	}
+	if b, ok := a.Cond.(*ssa.BinOp); ok {
+		if atomicLoadOf(b.X, "Fails") && readsField(b.Y, "MaxFails") {
+			return (b.Op == token.GEQ && !a.Pos) || (b.Op == token.LSS && a.Pos)
+		}
+	}
+	return false
 }
 
 func atomicLoadOf(v ssa.Value, field string) bool {
